@@ -106,6 +106,18 @@ def run(scn: Dict[str, Any]) -> UdpRun:
         def held_ports():
             return sorted(p for p in out.ports if any(h.owner == "app" for h in sim.net.udp_holders(p)))
 
+        out.running_samples = 0
+        out.running_but_not_listening = []
+
+        def sample_invariant():
+            # sampled at every loop iteration, also while start()/stop() are in progress
+            out.running_samples += 1
+            if bridge.is_running:
+                held = held_ports()
+                if held != sorted(out.ports) and len(out.running_but_not_listening) < 3:
+                    out.running_but_not_listening.append({"seq": sim.seq, "held": held})
+        sim.iteration_hooks.append(sample_invariant)
+
         async def settle():
             for _ in range(3):
                 await asyncio.sleep(0)
